@@ -265,6 +265,44 @@ theorem http_date_roundtrip (off : Instant → Int) (a : Aware) (h0 : tMin ≤ a
     simp [parseHttpDate, httpDate, parse_format a.instant h0 h1]
   exact ⟨h, (same_instant off _).1, fun e => by rw [h, ← e]⟩
 
+/-- `parse_dates(doc)`: whenever it returns, the zone used is the one named by the document's
+    `timezone` field, keys and order are unchanged, and EVERY field is converted as specified —
+    a string that is an RFC-1123 date became `toZone off t` for the instant `t` it denotes (hence,
+    by `same_instant`, an aware datetime in the document's zone denoting that instant); any other
+    string is untouched; every `timestamps` list is converted element by element; other values
+    are left alone. -/
+theorem parse_dates_faithful (zones : String → Option Zone) (d : Doc) (pd : PDoc)
+    (h : parseDates zones d = .ok pd) :
+    ∃ name z, lookupStr d "timezone" = some (.str name) ∧ zones name = some z ∧ DocOk z.off d pd := by
+  unfold parseDates at h
+  cases hl : lookupStr d "timezone" with
+  | none => simp [hl] at h
+  | some v =>
+    cases v with
+    | str name =>
+      cases hz : zones name with
+      | none => simp [hl, hz] at h
+      | some z =>
+        simp only [hl, hz] at h
+        exact ⟨name, z, rfl, hz, parseFields_ok z.off d pd h⟩
+    | ts l => simp [hl] at h
+    | other => simp [hl] at h
+
+/-- non-vacuity: a document with a null `doneChargingTime`, a session id that is not a date, and a
+    time series is converted; the same document without `timezone` is a `KeyError` -/
+example :
+    let z : Zone := { init := -28800, trans := [(1710064800, -25200)] }
+    let zones : String → Option Zone := fun n => if n == "America/Los_Angeles" then some z else none
+    let doc : Doc := [("_id", .str "5bc9"), ("connectionTime", .str "Sun, 10 Mar 2024 10:00:00 GMT"),
+      ("doneChargingTime", .other), ("timezone", .str "America/Los_Angeles"),
+      ("chargingCurrent", .ts ["Sun, 10 Mar 2024 09:59:59 GMT"])]
+    (match parseDates zones doc with
+      | .ok [(_, .str "5bc9"), (_, .date a), (_, .other), (_, .str _), (_, .ts [b])] =>
+        a.instant == 1710064800 && a.off == -25200 && a.loc.h == 3 && b.off == -28800 && b.loc.h == 1
+      | _ => false) = true ∧
+    (match parseDates zones (doc.take 3) with | .error .keyError => true | _ => false) = true := by
+  decide +kernel
+
 /-- non-vacuity: a Los-Angeles-like zone across the 2024 spring-forward transition -/
 example :
     let z : Zone := { init := -28800, trans := [(1710064800, -25200), (1730624400, -28800)] }
